@@ -4,4 +4,10 @@
 From Coq Require Extraction.
 From Coq Require Import ExtrOcamlBasic.
 From Perf Require Import Base.Bytes Base.Sx Corr.Dispatch.
-Extraction "model.ml" Dispatch.run Byte.to_N Byte.of_N Z.add Z.mul Z.opp N.of_nat N.to_nat Z.of_N.
+(* stable names for what driver.ml uses (extraction renames clashing top-level names) *)
+Definition drv_run : N -> sx -> N := Dispatch.run.
+Definition drv_byte_to_N (b : byte) : N := Byte.to_N b.
+Definition drv_z_add : Z -> Z -> Z := Z.add.
+Definition drv_z_mul : Z -> Z -> Z := Z.mul.
+Definition drv_z_opp : Z -> Z := Z.opp.
+Extraction "model.ml" drv_run drv_byte_to_N drv_z_add drv_z_mul drv_z_opp.
